@@ -191,7 +191,14 @@ def _consts(used: set, ty: str = "index", ind: str = "    ") -> str:
 
 
 # ---- generic scf.for family -----------------------------------------------------------------
-# body alphabet (see module docstring of the DESIGN entry); "L" = last value defined in the body, else iv
+# body alphabet; "last" = the last index value defined in the body (the induction variable if there is none):
+#   A(x, c)   %v = addi x, c          x in {iv, last}, c in {2, %p}         (range folding looks for these users of iv)
+#   M(x, c)   %v = muli x, c          x in {iv, last}, c in {-1, 0, 2, %p}
+#   ACC       %v = addi %acc, last    (only with an iter_arg; the last value is what the loop yields)
+#   INV       %v = addi %p, 2         loop-invariant pure op           INVR  %v = remsi 3, %p  (invariant, UB when %p == 0)
+#   LOGV      call @log(last)         effect on a loop-variant value    LOGI  call @log(%p)     effect on an invariant value
+#   NIF e/r/g scf.if on `cmpi slt iv, 2` with an effect / with a pure result; g: `if %p != 0 { last remsi %p }`
+#   NFOR j/s/u nested scf.for 0 to 2 step 1 logging j / i + j / an invariant value
 def body_alphabet(level: int) -> list[tuple]:
     """level 0: full alphabet, level 1: reduced alphabet used for the longest bodies"""
     ops: list[tuple] = []
@@ -966,7 +973,7 @@ def run(ctx):
         "argument_grid": list(ARGV), "memref_contents": list(MEM0),
         "for_bounds": "lb, ub in {-2..4} or argument; step in {1..4} or argument (all 320 combinations x 5 small bodies)",
         "for_bodies": ("<=2 ops of the full 23-op alphabet x 6 core bound shapes" if ctx.quick else
-                       "<=1 op x all 320 bound shapes; <=2 ops x 12 core bound shapes; <=3 ops of the reduced 16-op alphabet x 6 core bound "
+                       "<=1 op x all 320 bound shapes; <=2 ops x 12 core bound shapes; <=3 ops of the reduced 14-op alphabet x 6 core bound "
                        "shapes; <=3 ops of the full alphabet x 2 bound shapes"),
         "flatten_nests": "perfect 2-nests, constant inner bounds, outer constant or argument, 4 body kinds x with/without iter_args"
                          + ("" if ctx.quick else ", index and i32"),
